@@ -101,6 +101,15 @@ func verifDir() string {
 	return "/verif"
 }
 
+// outBase: where evidence/ and out/ are written (redirected by the mutant
+// self-test so that a scratch run never overwrites committed evidence).
+func outBase() string {
+	if d := os.Getenv("FPSA_OUT"); d != "" {
+		return d
+	}
+	return verifDir()
+}
+
 func loadReviewed() (map[string]string, error) {
 	b, err := os.ReadFile(filepath.Join(verifDir(), "fpsa", "reviewed.json"))
 	if err != nil {
@@ -288,7 +297,7 @@ func writeEvidence(p *Program, pd *propDef, v *Verdict, tier string, seed int, w
 	if err != nil {
 		return err
 	}
-	dir := filepath.Join(verifDir(), "evidence")
+	dir := filepath.Join(outBase(), "evidence")
 	if err := os.MkdirAll(dir, 0o755); err != nil {
 		return err
 	}
